@@ -279,7 +279,7 @@ func (e *env) checkDirect(op string, a, b int64) {
 
 func run(c *core.Ctx) {
 	e := newEnv(c)
-	B := int64(c.Pick(64, 512))
+	B := int64(c.Pick(512, 2048))
 	c.Note("small_range_B", B)
 	c.Note("boundary_values", len(boundary))
 	c.Note("power_table", "a in [-20,20], b in [0,70]")
